@@ -526,6 +526,7 @@ type mInc struct {
 	end      int64 // CLOSE / re-REQ of the same id sent (inf: never)
 	closed   bool  // a CLOSE for it was sent
 	closeAcc int64
+	closeIdx int // how many CLOSEs of this subscription id the client had sent before the one that closed it
 }
 
 func mergeJudge(sim *simrt.Sim, c *MergeCase, cl *simrt.Client, stubs []*mStub, evs []*mocrelay.Event) {
@@ -534,6 +535,7 @@ func mergeJudge(sim *simrt.Sim, c *MergeCase, cl *simrt.Client, stubs []*mStub, 
 	// ---- client history
 	var incs []*mInc
 	openInc := map[string]*mInc{}
+	nClose := map[string]int{}
 	type evReq struct {
 		sent *simrt.Sent
 		id   string
@@ -554,9 +556,11 @@ func mergeJudge(sim *simrt.Sim, c *MergeCase, cl *simrt.Client, stubs []*mStub, 
 			incs = append(incs, in)
 			openInc[m.SubscriptionID] = in
 		case *mocrelay.ClientCloseMsg:
+			nClose[m.SubscriptionID]++
 			if o := openInc[m.SubscriptionID]; o != nil && o.end == inf {
 				o.end = s.Invoke
 				o.closed = true
+				o.closeIdx = nClose[m.SubscriptionID] - 1
 				o.closeAcc = s.Accepted
 			}
 		case *mocrelay.ClientEventMsg:
@@ -682,10 +686,11 @@ func mergeJudge(sim *simrt.Sim, c *MergeCase, cl *simrt.Client, stubs []*mStub, 
 				if _, isE := cr.msg.(*mocrelay.ServerEOSEMsg); isE && cr.done != 0 {
 					has = true
 					if in.closed {
-						for _, cs := range sb.gotClose[in.sub] {
-							if cs > in.sent.Accepted && cs < cr.start {
-								afterClose = true
-							}
+						// the k-th CLOSE of an id a child receives is the k-th one the
+						// client sent (FIFO along the path; behind a nested merge an
+						// earlier CLOSE of the same id may arrive after the REQ was taken)
+						if gc := sb.gotClose[in.sub]; in.closeIdx < len(gc) && gc[in.closeIdx] < cr.start {
+							afterClose = true
 						}
 					}
 					break
